@@ -84,7 +84,11 @@ type row struct {
 	b  string
 }
 
-func (w *world) read() (rows []row, err error) {
+// reversed: database "b" declares its table t with the columns in the other order, so that two databases hold
+// equally named tables with different schemas (what one database knows about t must never serve the other)
+func reversed(db string) bool { return strings.ToLower(db) == "b" }
+
+func (w *world) read(db string) (rows []row, err error) {
 	defer func() {
 		if r := recover(); r != nil {
 			err = fmt.Errorf("panic: %v", r)
@@ -102,8 +106,15 @@ func (w *world) read() (rows []row, err error) {
 		if len(r.Vals) != 2 {
 			return nil, fmt.Errorf("row %v", r.Vals)
 		}
-		a, _ := r.Vals[0].(int64)
-		b, _ := r.Vals[1].(string)
+		ia, ib := 0, 1
+		if reversed(db) {
+			ia, ib = 1, 0
+		}
+		a, oka := r.Vals[ia].(int64)
+		b, okb := r.Vals[ib].(string)
+		if !oka || !okb {
+			return nil, fmt.Errorf("row %v does not have the columns database %s declared for t", r.Vals, db)
+		}
 		rows = append(rows, row{r.RowID, a, b})
 	}
 	return rows, nil
@@ -128,7 +139,7 @@ func (w *world) show() (names []string, err error) {
 
 // checkRows compares the selected database's table with the promise and applies the row id rules.
 func (w *world) checkRows(db string, want []int) []string {
-	rows, err := w.read()
+	rows, err := w.read(db)
 	if err != nil {
 		return []string{fmt.Sprintf("database %s: SELECT * FROM t failed: %v", db, err)}
 	}
@@ -199,6 +210,9 @@ func replay(sc Scenario) (res Result) {
 			q = "USE " + st.N
 		case "createtable":
 			q = "CREATE TABLE t (a INT, b VARCHAR(8))"
+			if reversed(st.Exp.Cur) {
+				q = "CREATE TABLE t (b VARCHAR(8), a INT)"
+			}
 		case "insert":
 			// the text column names the database the row was written to
 			q = fmt.Sprintf("INSERT INTO t (a, b) VALUES (%d, '%s%d')", st.V, st.Exp.Cur, st.V)
@@ -299,7 +313,7 @@ func replay(sc Scenario) (res Result) {
 			return fail(n-1, fmt.Sprintf("at the end `USE %s` failed: %v", d.D, e))
 		}
 		if !d.Has {
-			if _, err := w.read(); err == nil {
+			if _, err := w.read(d.D); err == nil {
 				return fail(n-1, fmt.Sprintf("database %s has a table t that was never created in it", d.D))
 			}
 			continue
